@@ -202,6 +202,20 @@ class ScriptedParallelEnv(ParallelEnv):
         return term, trunc
 
     def _obs(self, ai: int, act: int):
+        o = self._obs_c(ai, act)
+        if self.cfg.get("layout", "c") != "fortran":
+            return o
+
+        def f(x):
+            return np.asfortranarray(x) if x.ndim >= 2 else x[::-1][::-1]
+
+        if isinstance(o, dict):
+            return {k: f(v) for k, v in o.items()}
+        if isinstance(o, tuple):
+            return tuple(f(v) for v in o)
+        return f(o)
+
+    def _obs_c(self, ai: int, act: int):
         fields = (self.seed_code, self.env_id, ai, self.episode % P, self.t % P, act)
         dt = NP_DTYPES[self.cfg["dtype"]]
         dt2 = np.uint8 if self.cfg["dtype"] != "uint8" else np.float32
